@@ -53,7 +53,7 @@ class WorldC01(World):
     STATE_CHANGING = ('mkmode', 'mkspecies', 'edit', 'swap')
     STATE_RULE = 'per species: (mode classes in its five slots, modes shared with another species, edits since construction bucket)'
     PROBES = ('edit-imaginary-substitute', 'edit-wavenumbers', 'edit-wavenumbers-in-place', 'integer-wavenumbers', 'edit-spin', 'edit-qrrho-parameter', 'mode-shared-by-two-species', 'constant-mode-additivity-only', 'lsr-electronic-mode', 'textbook-harmonic-q-both-zeros', 'option-through-species', 'rot-temperatures-as-array', 'conditions-in-a-reused-dictionary',
-              'mutator-raised-part-way',
+              'mutator-raised-part-way', 'integer-temperature',
               'swap-mode', 'imaginary-mode-present', 'monatomic-rotor', 'linear-rotor', 'trans-1-or-2-dof', 'point-group-label',
               'debye-mode', 'einstein-mode', 'qrrho-mode', 'low-T-regime', 'high-T-regime', 'verbose-sum', 'pressure-shift',
               'textbook-harmonic', 'textbook-trans', 'textbook-rotor', 'textbook-elec', 'textbook-einstein', 'textbook-debye-Cv', 'textbook-qrrho', 'geometry-rigid-motion')
@@ -199,6 +199,8 @@ class WorldC01(World):
                                                    'mode': {'id': mid, 'kind': kind2, 'params': self._gen_params(rng, kind2)}}}
         sid = rng.choice(sorted(self.sp))
         T = round(rng.choice([10 ** rng.uniform(math.log10(50), math.log10(5000)), rng.uniform(50, 5000)]), 2)
+        if rng.random() < 0.2:
+            T = int(round(T))            # a whole-number temperature typed as an int (300, not 300.0)
         return {'c': c, 'op': 'eval', 'args': {'species': sid, 'T': T, 'P': round(10 ** rng.uniform(-4, 3), 5),
                                                'P2': round(10 ** rng.uniform(-4, 3), 5)}}
 
@@ -406,6 +408,8 @@ class WorldC01(World):
             raise Violation('H-U', '%s at T=%r: H/RT - U/RT = %r, expected %r' % (what, T, v['HoRT'] - v['UoRT'], want))
         if not full:
             return 'ok'
+        if isinstance(T, int):
+            ctx.probe('integer-temperature')
         if T < 150:
             ctx.probe('low-T-regime')
         if T > 2500:
